@@ -13,7 +13,12 @@ HEADER = ('From Coq Require Import List ZArith NArith.\n'
 CASE_TYPE = 'C19.case'
 NS = 'http://www.collada.org/2005/11/COLLADASchema'
 WDEN = 8          # morph weights are multiples of 1/8
-FAULTS = ['oob-joint', 'oob-weight', 'short', 'long', 'mismatch']
+FAULTS = ['oob-joint', 'oob-weight', 'neg-joint', 'neg-weight', 'short', 'long', 'mismatch']
+# reference-level faults (outside the property's list): (name, exception code the loader documents)
+# 1 DaeIncompleteError, 2 DaeBrokenRefError, 3 DaeMalformedError
+REF_FAULTS_SKIN = ['ref-missing', 'ref-wrong-kind', 'few-sources', 'one-joints-input', 'geom-missing']
+REF_FAULTS_MORPH = ['base-missing', 'bad-method', 'input-missing-source', 'target-not-geometry',
+                    'targets-name-array', 'one-input']
 IDENT = [1, 0, 0, 0, 0, 1, 0, 0, 0, 0, 1, 0, 0, 0, 0, 1]
 
 
@@ -84,6 +89,8 @@ def gen_skin(rng, fault=None):
                 row[oj] = (min(lim_j, nw) if ow == oj else lim_j) - 1
             if rng.random() < 0.25 and ow != oj:
                 row[ow] = nw - 1
+            if rng.random() < 0.06 and ow != oj:
+                row[oj] = -1                  # COLLADA: joint index -1 refers to the bind shape
             rows.append(row)
     v = [x for r in rows for x in r]
     bind = None if rng.random() < 0.4 else rand_affine(rng)
@@ -108,7 +115,11 @@ def gen_skin(rng, fault=None):
             'nodes': nodes, 'fault': None, 'empty_style': rng.choice(['empty', 'blank', 'selfclose']),
             'vw_order': rng.sample(range(3), 3)}
     exp = {'outcome': 'ok', 'nind': nind}
-    if fault is not None:
+    if fault in REF_FAULTS_SKIN:
+        code, why = apply_ref_fault_skin(rng, case, fault, separate)
+        case['fault'] = fault
+        exp = {'outcome': 'ref-error', 'code': code, 'why': why}
+    elif fault is not None:
         why = apply_fault(rng, case, fault, nind, oj, ow, lim_j, nw)
         if why is None:
             return gen_skin(rng, fault)
@@ -143,6 +154,13 @@ def apply_fault(rng, case, fault, nind, oj, ow, lim_j, nw):
         k = rng.randrange(ninf)
         v[nind * k + col] = lim + rng.choice([0, 0, 1, 5])
         return 'index %d in column %d, source has %d entries' % (v[nind * k + col], col, lim)
+    if fault in ('neg-joint', 'neg-weight'):
+        if ninf == 0 or oj == ow:
+            return None
+        col, val = (oj, rng.choice([-2, -2, -3, -7])) if fault == 'neg-joint' else (ow, rng.choice([-1, -1, -2, -5]))
+        k = rng.randrange(ninf)
+        v[nind * k + col] = val
+        return 'index %d in the %s column' % (val, 'joint' if fault == 'neg-joint' else 'weight')
     if fault == 'short':
         if not v:
             return None
@@ -173,6 +191,40 @@ def apply_fault(rng, case, fault, nind, oj, ow, lim_j, nw):
             else:
                 del ms['values'][-16:]
         return '%d joint names, %d matrices' % (len(js['values']), len(ms['values']) // 16)
+    raise ValueError(fault)
+
+
+def apply_ref_fault_skin(rng, case, fault, separate):
+    """-> (exception code the loader documents, description)"""
+    ji, vi = case['joints_inputs'], case['vw_inputs']
+    if fault == 'ref-missing':
+        which = rng.choice(['joints', 'vw'])
+        lst = ji if which == 'joints' else vi
+        k = rng.randrange(len(lst))
+        lst[k][1] = 'no-such-source'
+        return 2, '%s input %s refers to a source that does not exist' % (which, lst[k][0])
+    if fault == 'ref-wrong-kind':
+        which = rng.choice(['JOINT', 'INV_BIND_MATRIX', 'WEIGHT', 'VW_JOINT'])
+        if which == 'JOINT':
+            next(i for i in ji if i[0] == 'JOINT')[1] = 'weights-src'
+        elif which == 'INV_BIND_MATRIX':
+            next(i for i in ji if i[0] == 'INV_BIND_MATRIX')[1] = 'joints-src'
+        elif which == 'WEIGHT':
+            next(i for i in vi if i[0] == 'WEIGHT')[1] = 'joints-src'
+        else:
+            next(i for i in vi if i[0] == 'JOINT')[1] = 'mats-src'
+        return 1, 'the %s input refers to a source of the wrong kind' % which
+    if fault == 'few-sources':
+        case['sources'] = [s for s in case['sources'] if s['id'] in ('joints-src', 'mats-src')]
+        next(i for i in vi if i[0] == 'WEIGHT')[1] = 'mats-src'
+        next(i for i in vi if i[0] == 'JOINT')[1] = 'joints-src'
+        return 3, 'only two sources'
+    if fault == 'one-joints-input':
+        del ji[rng.randrange(len(ji))]
+        return 1, 'only one <joints> input'
+    if fault == 'geom-missing':
+        case['source_geom'] = 'no-such-geometry'
+        return 2, 'skin/@source names no loaded geometry'
     raise ValueError(fault)
 
 
@@ -223,9 +275,34 @@ def gen_morph(rng, fault=None):
     case['scene'] = gen_scene(rng, case['nodes'])
     case['paths'] = scene_paths(case['scene'])
     exp = {'outcome': 'ok', 'pairs': [[t, w / WDEN] for t, w in zip(targets, weights)]}
-    if fault is not None:
-        ts = next(s for s in sources if s['id'] == 'targets-src')
-        ms = next(s for s in sources if s['id'] == 'mweights-src')
+    ts = next(s for s in sources if s['id'] == 'targets-src')
+    ms = next(s for s in sources if s['id'] == 'mweights-src')
+    if fault in REF_FAULTS_MORPH:
+        case['fault'] = fault
+        if fault == 'base-missing':
+            case['base'] = 'no-such-geometry'
+            code = 2
+        elif fault == 'bad-method':
+            case['method'] = rng.choice(['ADDITIVE', 'normalized', ''])
+            code = 3
+        elif fault == 'input-missing-source':
+            inputs[rng.randrange(2)][1] = 'no-such-source'
+            code = 2
+        elif fault == 'target-not-geometry':
+            if not ts['values']:
+                ts['values'].append('x')
+                ms['values'].append(8)
+            ts['values'][rng.randrange(len(ts['values']))] = 'no-such-geometry'
+            code = 2
+        elif fault == 'targets-name-array':
+            ts['type'] = 'Name'
+            ts['ptype'] = 'Name'
+            code = 1
+        else:
+            del inputs[rng.randrange(2)]
+            code = 1
+        exp = {'outcome': 'ref-error', 'code': code, 'why': fault}
+    elif fault is not None:
         which = rng.choice(['more-targets', 'fewer-targets', 'more-weights', 'fewer-weights'])
         if which == 'more-targets' or (which == 'fewer-targets' and not ts['values']):
             ts['values'].append(rng.choice(ids))
@@ -247,8 +324,7 @@ def gen_morph(rng, fault=None):
 def num(x, den=1):
     if den == 1:
         return str(x)
-    r = repr(x / den)
-    return r[:-2] if r.endswith('.0') else r
+    return repr(x / den)
 
 
 def source_xml(rng, s):
@@ -373,8 +449,8 @@ def encode(case, obs):
     out = []
     code = obs['code']
     if case['kind'] == 'skin':
-        d = '(mk_skin_desc %s true %s %s %s %s %s)' % (
-            c_scope(I, case),
+        d = '(mk_skin_desc %s %s %s %s %s %s %s)' % (
+            c_scope(I, case), cbool(case['source_geom'] in [g['id'] for g in case['geoms']]),
             copt(None if case['bind_shape'] is None else zl(case['bind_shape'])),
             clist(['(%s, %s)' % (SEM.get(s, 'SOther'), I(i)) for s, i in case['joints_inputs']]),
             clist(['(%s, %s, %d)' % (SEM.get(s, 'SOther'), I(i), o) for s, i, o in case['vw_inputs']]),
@@ -397,8 +473,8 @@ def encode(case, obs):
                 for path, M in zip(paths, trav):
                     out.append('(BoundCase %s %s %s)' % (clist([zl(m) for m in path]), zl(view['bind_shape']), zl(M)))
     else:
-        d = '(mk_morph_desc %s (Some (%s)) true %s %s)' % (
-            c_scope(I, case), I(case['base']),
+        d = '(mk_morph_desc %s (Some (%s)) %s %s %s)' % (
+            c_scope(I, case), I(case['base']), cbool(case['method'] in (None, 'NORMALIZED', 'RELATIVE')),
             clist(['(%s, %s)' % (SEM.get(s, 'SOther'), I(i)) for s, i in case['targets_inputs']]),
             clist([I(g['id']) for g in case['geoms']]))
         view = obs.get('view')
@@ -448,10 +524,12 @@ def failures_of(cases, results, limit=6):
 def gen_batch(rng, nskin, nmorph):
     cases = []
     for _ in range(nskin):
-        fault = rng.choice(FAULTS) if rng.random() < 0.4 else None
+        r = rng.random()
+        fault = rng.choice(FAULTS) if r < 0.4 else rng.choice(REF_FAULTS_SKIN) if r < 0.5 else None
         cases.append(gen_skin(rng, fault))
     for _ in range(nmorph):
-        cases.append(gen_morph(rng, 'mismatch' if rng.random() < 0.3 else None))
+        r = rng.random()
+        cases.append(gen_morph(rng, 'mismatch' if r < 0.25 else rng.choice(REF_FAULTS_MORPH) if r < 0.45 else None))
     return cases
 
 
